@@ -1897,7 +1897,6 @@ where
         out: &mut Vec<Option<LazyValue<'de>>>,
         remain: &mut usize,
     ) -> Result<()> {
-        debug_assert!(strbuf.is_empty());
         match self.skip_space() {
             Some(b'{') => {}
             Some(peek) => return Err(self.peek_invalid_type(peek, &"a JSON object")),
@@ -1951,7 +1950,6 @@ where
         out: &mut Vec<Option<LazyValue<'de>>>,
         remain: &mut usize,
     ) -> Result<()> {
-        debug_assert!(strbuf.is_empty());
         match self.skip_space() {
             Some(b'{') => {}
             Some(peek) => return Err(self.peek_invalid_type(peek, &"a JSON object")),
